@@ -120,6 +120,10 @@ class TreeModel:
             recv = it.ev(call.func.value, env, 9)
             it.trace.append(Effect("call", "generate", tuple(snap(a) for a in args), {k: snap(v) for k, v in kwargs.items()},
                                    node=call, fn=fn, recv=recv))
+            rec = args[3] if len(args) > 3 else kwargs.get("rec")
+            if isinstance(rec, LocalFn) and len(args) > 2:
+                # a refinement may ask for values of the base type through the callback it is given
+                it.call_local(rec, [args[2]], {}, 1, env)
             return Sym("generated")
         if nm == "get_dependencies" and isinstance(call.func, ast.Attribute):
             recv = it.ev(call.func.value, env, 9)
